@@ -150,6 +150,8 @@ func checkC02(c *Ctx) {
 	c1Taint(c, "R2.10")
 	c.Rule("R2.11", "a value that fails to encode leaves no partial output (a reflected value is encoded before its separator/key is written)", 2)
 	c10Reflected(c, "R2.11")
+	c.Rule("R2.22", "a lazily derived core writes through the core it derived (With applied to the stored fields), never through the original one: the WithLazy context would vanish from the line", 3)
+	c.As(map[string]string{"R7.6": "R2.22"}, func() { c7Lazy(c) })
 }
 
 func c2Entry(c *Ctx) {
